@@ -337,7 +337,7 @@ def shrink(ctx, comp, case, which, budget_s):
     """Greedy delta-debugging on the op list named by comp['ops_path']."""
     path = comp.get("ops_path")
     if path is None:
-        return case
+        return shrink_generic(ctx, comp, case, which, budget_s)
     t_end = time.time() + budget_s
     counter = [0]
 
@@ -369,6 +369,75 @@ def shrink(ctx, comp, case, which, budget_s):
             break
         chunk = max(1, chunk // 2) if chunk > 1 else (1 if progressed else 0)
     ctx.say("  shrunk to %d ops in %d evaluations" % (len(ops), counter[0]))
+    return best
+
+
+def list_paths(t, prefix=()):
+    """paths of all JSON lists inside a term"""
+    out = []
+    if isinstance(t, list):
+        out.append(prefix)
+        for i, x in enumerate(t):
+            out += list_paths(x, prefix + (i,))
+    elif isinstance(t, dict):
+        for k in ("a", "t"):
+            if k in t:
+                for i, x in enumerate(t[k]):
+                    out += list_paths(x, prefix + (k, i))
+    return out
+
+
+def term_get(t, path):
+    for p in path:
+        t = t[p]
+    return t
+
+
+def term_set(t, path, v):
+    t = json.loads(json.dumps(t))
+    if not path:
+        return v
+    cur = t
+    for p in path[:-1]:
+        cur = cur[p]
+    cur[path[-1]] = v
+    return t
+
+
+def shrink_generic(ctx, comp, case, which, budget_s):
+    """Structural shrinking for inputs without a single op list: repeatedly try to drop one element
+    of any list inside the input term, keeping a candidate when the same rejection persists."""
+    t_end = time.time() + budget_s
+    evals = [0]
+
+    def fails(inp):
+        evals[0] += 1
+        try:
+            cs = run_corr(comp, ["run"], inp=(json.dumps({"in": inp}) + "\n").encode())
+            if not cs:
+                return None
+            fc, fm = eval_cases(ctx, comp, cs, "shrink%d" % os.getpid())
+        except Violation:
+            return None
+        return cs[0] if (fc if which == "check" else fm) else None
+
+    best = case
+    progressed = True
+    while progressed and time.time() < t_end:
+        progressed = False
+        paths = sorted(list_paths(best["in"]), key=lambda p: -len(term_get(best["in"], p)))
+        for p in paths:
+            lst = term_get(best["in"], p)
+            i = len(lst) - 1
+            while i >= 0 and time.time() < t_end:
+                cand = term_set(best["in"], p, lst[:i] + lst[i + 1:])
+                r = fails(cand)
+                if r is not None:
+                    best, lst, progressed = r, lst[:i] + lst[i + 1:], True
+                i -= 1
+            if time.time() >= t_end:
+                break
+    ctx.say("  structurally shrunk in %d evaluations" % evals[0])
     return best
 
 
@@ -475,7 +544,16 @@ def correspondence(ctx):
                     if e:
                         ctx.known_hits.append(e)
                         continue
-                    viol.append((comp, which, small))
+                    if which == "check" and not comp.get("mismatch_is_violation", True) and comp.get("monitor"):
+                        # the model covers more than this property: a disagreement is a failing input of
+                        # THIS property only if the property's own monitor rejects what the code did
+                        try:
+                            _, fm2 = eval_cases(ctx, comp, [small], "cls%d" % os.getpid())
+                        except Violation:
+                            fm2 = []
+                        viol.append((comp, "check" if fm2 else "check-noinput", small))
+                    else:
+                        viol.append((comp, which, small))
         stats["samples"] = samples
         hsh = hashlib.sha1()
         for (tag, cs) in batches:
@@ -486,7 +564,12 @@ def correspondence(ctx):
         ctx.say("  correspondence %s: %d generated + %d corpus, %d mismatches, %d monitor rejections" %
                 (comp["name"], stats["generated"], stats["corpus"], stats["check_mismatches"], stats["monitor_rejections"]))
     if viol:
+        # prefer a violation that carries a failing input of the property itself
+        viol.sort(key=lambda v: 0 if v[1] in ("monitor", "check") else 1)
         comp, which, small = viol[0]
+        noinput = which == "check-noinput"
+        if noinput:
+            which = "check"
         payload = {"property": ctx.prop, "kind": "correspondence" if which == "check" else "monitor",
                    "component": comp["name"], "seed": ctx.seed, "input": small["in"], "impl_output": small["out"],
                    "model_output": model_output(ctx, comp, small),
@@ -495,8 +578,12 @@ def correspondence(ctx):
                                "disagree on this minimized input" if which == "check" else
                                "the property's trace monitor rejects what the implementation did on this input"),
                    "other_failures": len(viol) - 1}
+        if noinput:
+            payload["obligation"] = ("correspondence %s <-> Model (the executable model the theorems are about no longer "
+                                     "agrees with the code on this input; the property's own trace monitor accepts what the "
+                                     "code did, so no failing input of the property itself was found)" % comp["name"])
         raise Violation("correspondence" if which == "check" else "monitor",
-                        "%s: %s rejects a minimized case" % (comp["name"], which), payload)
+                        "%s: %s rejects a minimized case" % (comp["name"], which), payload, no_input=noinput)
 
 
 # ----------------------------------------------------------------------------------------
